@@ -86,6 +86,13 @@ class Ctx:
             return map(fn, items)
         return self.pool().imap(fn, items, chunksize)
 
+    def pmap_forked(self, fn, items, chunksize=1):
+        """Like pmap, but every item is evaluated in its own child forked from the worker, so no library state
+        (caches, module-level scratch) survives from one item to the next and a reported case replays alone."""
+        from mc.explore.forked import call_forked
+
+        return self.pmap(call_forked, [(fn, it) for it in items], chunksize)
+
     def close(self):
         if self._pool is not None:
             self._pool.terminate()
